@@ -196,6 +196,29 @@ def run(tier, seed, rng):
                 failures.append(dict(kind='oracle', sig='data-pack', what='Data pack: value + excluded delimiter not re-emitted',
                                      classes=decl.py_class(0, table_for(cfg)[0]), raw=raw.hex(), offset=off,
                                      observed=str(o['packed']), required=want_p))
+    # ---- CONSTRUCTED values (never parsed): pack emits exactly value + excluded literal delimiter, whatever the value's bytes are
+    # (ending with the marker, ending with a prefix of it, containing it); included delimiters: exactly the value
+    cmarks = [b'\x00', b'ab', b'\r\n', b':', b'aa', b'abc']
+    csrc, ccases, cmeta = "", [], []
+    for mi, mk in enumerate(cmarks):
+        for incl in (False, True):
+            for sbl in (None, 8):
+                for gen in (True, False):
+                    nm = f"CV{mi}{'i' if incl else 'x'}{'w' if sbl else ''}{'' if gen else 'L'}"
+                    conf = {}
+                    if sbl: conf['search_buffer_length'] = sbl
+                    if not gen: conf.update(generate_for_pack=False, generate_for_unpack=False)
+                    csrc += f"class {nm}(Packet):\n" + (f"    __bisturi__ = {conf!r}\n" if conf else "") + f"    name = Data(until_marker={mk!r}, include_delimiter={incl})\n    tail = Int(1)\n"
+                    for val in (b'', b'q', mk, b'q' + mk, mk + mk, b'q' + mk[:1], mk[-1:], b'q' + mk + b'r', mk + b'q', b'xy' + mk[:-1] if len(mk) > 1 else b'xy'):
+                        ccases.append(dict(cls=nm, op='pack', value={"py": f"{nm}(name={val!r}, tail=7)"})); cmeta.append((nm, mk, incl, val))
+    cres = run_impl(os.path.join(VERIF, 'harness', 'impl_pkt.py'), dict(header=decl.HEADER_PY, blocks=[dict(name='cvals', src=csrc)], modname='c06c', cases=ccases))
+    dist['constructed_value_pack_cases'] = len(ccases)
+    for (nm, mk, incl, val), o in zip(cmeta, cres['outcomes']):
+        want_p = (val + (b'' if incl else mk) + b'\x07').hex()
+        if o.get('ok') != want_p:
+            failures.append(dict(kind='oracle', sig='data-pack-constructed', what=f"Data pack of a constructed value {val!r} (marker {mk!r}, include_delimiter={incl}): the value followed by the excluded delimiter, byte for byte",
+                                 classes=[c for c in csrc.split('class ') if c.startswith(nm + '(')][0].join(['class ', '']), cls=nm, value=f"{nm}(name={val!r}, tail=7)",
+                                 observed=str(o), required=want_p))
     # ---- regex delimiters whose match depends on context (look-behind, word boundary, anchors), for a field that does NOT start
     # at offset 0: "the first match at or after the cursor" is decided on the bytes from the cursor on, never on what precedes it
     import re as _re
